@@ -478,6 +478,13 @@ def case_key(c):
 
 # ------------------------------------------------------------------ the check
 def run(ctx):
+    C.expect_sessions(ctx["report"], ctx["rundir"], "C18",
+                      [(["size(sample(Bernoulli(1/2), 1000001))"], "I:1000001", "sample(X, n) returns exactly n values beyond a million"),
+                       (["size(sample(UniformInt(1, 6), 1000000))"], "I:1000000", "sample(X, n) returns exactly n values at a million"),
+                       (["seed(3)", "zs = sample(Binomial(1000001, 0.000001), 30)", "(min(zs) >= 0) + (max(zs) <= 1000001)"], "I:2", "Binomial with more than a million trials stays in 0..n (p near 0)"),
+                       (["seed(2)", "zs = sample(Binomial(1000001, 0.999999), 30)", "(min(zs) >= 0) + (max(zs) <= 1000001)"], "I:2", "Binomial with more than a million trials stays in 0..n (p near 1)"),
+                       (["seed(7)", "za = sample(Poisson(1000001))", "seed(7)", "zb = sample(Poisson(1000001))", "(za == zb) + (za >= 0)"], "I:2", "Poisson with a mean beyond a million is reproducible from the seed")],
+                      kind="heavy-regime")
     rep, tier, seed = ctx["report"], ctx["tier"], ctx["seed"]
     rng = random.Random(seed * 9176 + 18)
     replay_fed, replay_direct = None, None
